@@ -83,6 +83,15 @@ def check_leg1(res, case, rec, flavour, upd, text):
         res.deviation("SeqIO.read", case, seq, genome, sig="sequence-differs")
     if name != IO.SEQNAME:
         res.deviation("SeqIO.read", case, name, IO.SEQNAME, sig="sequence-name-differs")
+    # a multi-part location is listed so that a reader that splices the parts in the order it is given them gets the
+    # 5'->3' sequence: ascending on the plus strand, and (read back through `complement(join(...))`) descending on the minus
+    for r in rows:
+        if len(r["parts"]) > 1 and r.get("listed") is not None:
+            st = r["parts"][0][2]
+            want = sorted(r["parts"], reverse=(st == -1))
+            res.note("part-order", "minus" if st == -1 else "plus")
+            if r["listed"] != want:
+                res.deviation("collection_to_genbank", case, r["listed"], want, sig="part-order", row_type=r["type"], part_strand=st)
     exp = W.expected_rows(rec, flavour, upd)
     got_keys = sorted(_key(r) for r in rows)
     exp_keys = sorted(_key(r) for r in exp)
@@ -240,7 +249,13 @@ def check_record(res, rec, flavour, upd):
         got2 = IO.read_rows(o2[1])[2] if o2[0] == "ok" else o2[1]
         res.deviation("collection_to_genbank", dict(case, force_strand=False), [r["type"] for r in got2] if isinstance(got2, list) else got2,
                       [r["type"] for r in rows], sig="force-strand-false-differs")
-    sorted_ok = W.rows_position_sorted(rows)
+    # "position-sorted" is read plainly (non-decreasing starts); `ties` = genes that share a start, each followed by its own
+    # children: still position-sorted, but position alone no longer says which child belongs to which gene
+    strict_ok = W.rows_position_sorted(rows)
+    sorted_ok = W.rows_start_sorted(rows)
+    ties = sorted_ok and not strict_ok
+    if ties:
+        case = dict(case, same_start_genes=True)
     tags_ok = W.gene_tags_unique(rows)
     premise = sorted_ok and tags_ok
     # which strategy is documented to be able to group this file: SORTED needs position order; LOCUS_TAG needs every
@@ -311,4 +326,25 @@ def replay(case):
 
 
 # no known finding: the missing /codon_start (DESIGN appendix B19) was repaired in /repo, a recurrence is a VIOLATION
-MATCHERS = {}
+def _m_minus_part_order(d):
+    """a minus-strand location of two or more blocks is handed to Biopython with its parts in ascending order, so the file
+    says complement(join(<last exon>,<first exon>)): an order-trusting reader splices the exons 3'->5' (pinned by the
+    bundled test test_compound_interval.py::test_biopython[location1-expected_output1])"""
+    if d["sig"] != "part-order" or d.get("part_strand") != -1:
+        return False
+    # wrong-answer shape: exactly the ascending listing of the very same parts
+    return d["observed"] == sorted(d["observed"]) and sorted(d["observed"], reverse=True) == d["expected"]
+
+
+def _m_sorted_same_start(d):
+    """SORTED mode on a file in which two genes START AT THE SAME POSITION (each followed by its own children): the parser
+    re-sorts the rows by (start, type), which puts both `gene` rows first and hands every child to the second gene; the
+    locus-tag and hybrid modes read the same file correctly"""
+    if not d["case"].get("same_start_genes"):
+        return False
+    if d["sig"] == "modes-disagree-SORTED":
+        return True
+    return d.get("mode") == "SORTED" and d["sig"].startswith("parse-") and d["sig"] not in ("parse-raises", "parse-sequence", "parse-fc-order")
+
+
+MATCHERS = {"c12_minus_part_order": _m_minus_part_order, "c12_sorted_same_start": _m_sorted_same_start}
